@@ -81,6 +81,14 @@ def bases(rng, tier):
     b3 = {"components": [{"name": "ksys", "kind": "sys", "inputs": {}, "expose": {"y": ["k", "o"]}, "components": [cst]},
                          dev("ksink", {"i": ["ksys", "y"]})], "n_ticks": 6}
     out = [b1, b2, b3]
+    # an inner device driven by its adapter: the interrupt arrives k loop iterations after the instant at
+    # which (in the extended configuration) an unrelated periodic device of the same system is due - i.e.
+    # while the nested tick serving that device is running, or just before / after it
+    for k in (range(0, 24) if tier == "quick" else range(0, 40)):
+        out.append({"components": [{"name": "bsys", "kind": "sys", "inputs": {}, "expose": {"y": ["bq", "o"]}, "components": [dev("bq")]},
+                                   dev("bsink", {"i": ["bsys", "y"]})],
+                    "n_ticks": 3, "stims": [{"real": 3_000_000, "yields": k, "comp": "bq"}, {"real": 3 * P + 1000, "comp": "bq"}],  # 3 ms = period of `xinner`
+                    "only_extensions": ("device-inside-base-system",), "only_buses": ("sync",)})
     for _ in range(3 if tier == "quick" else 30):
         s = S.gen_nested(rng, depth=2, max_n=5)
         s["n_ticks"] = 5
@@ -107,13 +115,15 @@ def run(tier, seed, drv):
     rng = random.Random(seed)
     for bi, scn in enumerate(bases(rng, tier)):
         base_devs = {d["name"] for d in S.devices(scn)}
-        for b in ("sync", "held"):
+        for b in scn.get("only_buses", ("sync", "held")):
             sd = rng.randrange(1 << 30)
             rb = run_scenario(scn, bus=b, seed=sd)
             SC.check_run(scn, rb, drv, res, monitors_on=("adapters", "ticker"), corr=("ticker",), case_extra={"bus": b})
             tid = monitors.master_tid(rb)
             t_end = max([e["time"] for e in rb["trace"].of("t-done") if e["tid"] == tid], default=0)
             for label, ext in extensions(rng, scn):
+                if scn.get("only_extensions") and label not in scn["only_extensions"]:
+                    continue
                 e2 = dict(ext, n_ticks=scn.get("n_ticks", 5) * 4)
 
                 def stop(trace, info, t_end=t_end):
